@@ -8,6 +8,7 @@ from vf.world.cmds import ROOT
 from vf.world.proj import Project
 
 META = {
+    "solver_reasoned": 'modification time of every file, start of the command, clock increments before successive touches: symbolic ints (ties allowed).',
     "real": ["gwf.plugins.touch.touch (body)", "gwf.plugins.touch.touch_workflow", "gwf.core.FileSpecHashes.update/close", "gwf.filtering.filter_names", "gwf.core.Graph.from_targets/endpoints",
              "gwf.plugins.status.status (body) + gwf.scheduling.get_status_map/should_run for the follow-up status"],
     "stubs": ["VFS: pathlib.Path.touch/os.utime set the modification time to the VFS clock; the clock advances by a symbolic non-negative amount before every touch (ties allowed)",
